@@ -162,7 +162,7 @@ PROPS = {
     ),
     "C18": dict(
         kani=C18_FAMILY + ["wrapper_check_can_rename", "wrapper_unsafe_copy", "wrapper_unsafe_rename", "wrapper_remove", "wrapper_mkdirs"],
-        verus=[],
+        verus=["move_target"],
         prefixes=["C18.", "C05.", "C02.execute_frame."],
         category="proof",
         trust=GHOST_FS_TRUST,
